@@ -85,7 +85,7 @@ Theorem C14_handler_deadline : forall base arrival field,
             d <= arrival + field * ms_ns /\
             (base = None -> d = arrival + field * ms_ns) /\
             (forall b, base = Some b -> d = Z.min b (arrival + field * ms_ns)).
-Proof. intros base arrival field H. split; [exact (recv_ttl_exact field H)|exact (handler_deadline base arrival field H)]. Qed.
+Proof. exact handler_clause. Qed.
 Print Assumptions C14_handler_deadline.
 
 (* a zero ttl yields a context that is already expired, with or without a base deadline *)
@@ -152,7 +152,8 @@ Theorem C14_cancel_sound : forall c ls,
   (cctx s = 0 \/ cctx s = 1 \/ cctx s = 2) /\
   (cctx s = 1 -> In LDeadline ls) /\ (cctx s = 2 -> In LCancel ls) /\
   (cres s = Some c_ErrCodeTimeout -> In LDeadline ls) /\
-  (cres s = Some c_ErrCodeCancelled -> In LCancel ls).
+  (cres s = Some c_ErrCodeCancelled -> In LCancel ls) /\
+  (dl_passed s = true -> In LDeadline ls).
 Proof. exact causes_run. Qed.
 Print Assumptions C14_cancel_sound.
 
@@ -195,15 +196,28 @@ Theorem C14_cancel_propagates : forall c ls l,
 Proof. exact propagates_run. Qed.
 Print Assumptions C14_cancel_propagates.
 
-(* the caller's wait ends with ErrTimeout after its deadline, ErrRequestCancelled after a
-   cancellation (BeginCall included) *)
+(* the caller's wait (request write or response read) ends with ErrTimeout after its deadline,
+   ErrRequestCancelled after a cancellation *)
 Theorem C14_caller_error : forall c ls l,
   let s := run c ls in
-  caller_waits s l \/ (l = LBegin /\ begun s = false /\ cres s = None) ->
+  caller_waits s l ->
   (cctx s = 1 -> cres (run c (ls ++ [l])) = Some c_ErrCodeTimeout) /\
   (cctx s = 2 -> cres (run c (ls ++ [l])) = Some c_ErrCodeCancelled).
 Proof. exact caller_error_run. Qed.
 Print Assumptions C14_caller_error.
+
+(* BeginCall itself: ErrTimeout once the deadline has passed (the remaining-time test comes
+   first, even for a cancelled context), ErrRequestCancelled for a cancelled context with time
+   left, otherwise the call starts *)
+Theorem C14_begin_error : forall c ls,
+  let s := run c ls in
+  begun s = false -> cres s = None ->
+  (dl_passed s = true -> cres (run c (ls ++ [LBegin])) = Some c_ErrCodeTimeout) /\
+  (dl_passed s = false -> cctx s = 2 -> cres (run c (ls ++ [LBegin])) = Some c_ErrCodeCancelled) /\
+  (dl_passed s = false -> cctx s = 0 ->
+     begun (run c (ls ++ [LBegin])) = true /\ cres (run c (ls ++ [LBegin])) = None).
+Proof. exact begin_error_run. Qed.
+Print Assumptions C14_begin_error.
 
 (* an ended context stays ended, with the same reason, under any continuation *)
 Theorem C14_ctx_sticky : forall c ls ls',
